@@ -82,6 +82,28 @@ func runC13(c *rt.Ctx) {
 	c2, p2 := poolCommands(2)
 	prep01 := append(append([]wire.Op{}, p0...), p1...)
 	prep012 := append(append([]wire.Op{}, prep01...), p2...)
+	// cuts at byte granularity inside a reply (after the header, inside and after the extras, one byte
+	// before the end): every read-type command on present and empty values, alone on its connection
+	for _, ps := range []int{1, 2} {
+		for _, a := range c0 {
+			switch a.Kind {
+			case "get", "gat", "gete", "mget", "mgete":
+			default:
+				continue
+			}
+			item++
+			if c.Mine(item) && !c.Expired() {
+				run(PoolScenario{Harness: "C13", BatchSize: 1, PoolSize: ps, Prep: p0, Callers: []wire.Op{a}, MaxCuts: 1, FineCuts: true, Late: true})
+			}
+		}
+		// a hit on an empty value whose flags are not zero, alone
+		item++
+		if c.Mine(item) && !c.Expired() {
+			run(PoolScenario{Harness: "C13", BatchSize: 1, PoolSize: ps, Prep: p0, Callers: []wire.Op{{Kind: "get", Key: "c0-h2"}}, MaxCuts: 1, FineCuts: true, Late: true})
+			run(PoolScenario{Harness: "C13", BatchSize: 1, PoolSize: ps, Prep: p0, Callers: []wire.Op{{Kind: "gete", Key: "c0-h2"}}, MaxCuts: 1, FineCuts: true, Late: true})
+			run(PoolScenario{Harness: "C13", BatchSize: 1, PoolSize: ps, Prep: p0, Callers: []wire.Op{{Kind: "gat", Key: "c0-h2", TTL: 77}}, MaxCuts: 1, FineCuts: true, Late: true})
+		}
+	}
 	// a long outage: the backend refuses enough dials in a row for the reconnect back-off to reach
 	// its cap (and stay there for a few more attempts) before it accepts again
 	for _, ps := range []int{1, 2} {
